@@ -28,23 +28,29 @@ def cases(draw, tier):
     pre = draw(st.one_of(st.none(), W.input_waves(n, lanes)))
     return dict(nl=nl, lanes=lanes, waves=waves, pre=pre, dpool=draw(W.DELAY_POOL), caps=draw(W.CAPS), f64=draw(st.booleans()),
                 strip_forks=draw(st.booleans()), pol_indep=draw(st.booleans()), c_reuse=draw(st.sampled_from([False, False, True])),
-                shift=draw(st.integers(-4096, 8192)), scale=draw(st.integers(-6, 6)), cuda=False)
+                shift=draw(st.integers(-4096, 8192)), scale=draw(st.integers(-6, 6)), cuda=draw(st.sampled_from([False, False, False, True])),
+                nds=draw(st.sampled_from([1, 1, 2, 3])), gsel=draw(st.integers(0, 2)))
 
 
 def run(case, b, scale=1.0, shift=0.0):
-    from kyupy.wave_sim import WaveSim
+    from kyupy.wave_sim import WaveSim, WaveSimCuda
     nlines = len(b.c.lines)
+    nds = case.get('nds', 1)
+    g = case.get('gsel', 0) % nds
     delays = W.delays_for(nlines, case['dpool'], dtype='float64' if case['f64'] else 'float32',
-                          polarity_independent=case['pol_indep'], scale=scale)
-    sim = WaveSim(b.c, delays, sims=case['lanes'], c_caps=W.caps_for(nlines, case['caps']), c_reuse=bool(case.get('c_reuse')),
-                  strip_forks=case['strip_forks'])
+                          polarity_independent=case['pol_indep'], scale=scale, datasets=nds)
+    klass = WaveSimCuda if case.get('cuda') else WaveSim
+    sim = klass(b.c, delays, sims=case['lanes'], c_caps=W.caps_for(nlines, case['caps']), c_reuse=bool(case.get('c_reuse')),
+                strip_forks=case['strip_forks'])
+    if nds > 1:
+        sim.simctl_int[1] = 0           # the seed argument of c_prop names the delay dataset for all simulations
     if case.get('pre'):         # an earlier, unrelated assignment on the same simulator object must leave no trace
         W.apply_inputs(sim, b, case['nl'], case['pre'])
-        sim.c_prop(); sim.c_to_s()
+        sim.c_prop(seed=g); sim.c_to_s()
     W.apply_inputs(sim, b, case['nl'], case['waves'], scale=scale, shift=shift)
-    sim.c_prop()
+    sim.c_prop(seed=g)
     sim.c_to_s()
-    return sim, delays
+    return sim, delays[g:g + 1]         # the window is that of the selected dataset
 
 
 def sta(b, nl, delays, waves, lane, strip_forks):
@@ -165,6 +171,8 @@ def prop(case):
     if case['strip_forks']: labels.append('strip_forks')
     if case.get('pre'): labels.append('simulator_reused')
     if reuse: labels.append('c_reuse_captured_rows')
+    if case.get('cuda'): labels.append('cuda_path')
+    if case.get('nds', 1) > 1: labels.append('several_delay_datasets')
     if any(w['ovl'] for ww in waves for w in ww): labels.append('overflow')
     return Obs(busy and multi_switch, labels, checks=3 * len(b.c.lines) * lanes)
 
